@@ -253,6 +253,8 @@ def shard(ctx):
                 got = [x[1] for x in o1[1][1]] if o1[1] != NIL else []
                 sig['direction'] = 'missing' if set(got) < set(expected) else ('extra' if set(got) > set(expected) else 'other')
                 sig['call_arg'] = call_arg_class(cargs, ckinds)
+                if len(set(got)) < len(got) and set(got) == set(expected):
+                    sig['direction'] = 'duplicate_answers'
             arith.panic_sig(sig, o1)
             rec.violation(sig, {'program': ptext, 'setup': setup_goals, 'call': g1, 'expected': expected,
                                 'observed_indexed': arith.show_obs(o1), 'observed_twin': arith.show_obs(o2),
